@@ -117,7 +117,9 @@ It fails when a look-ahead element (the entry after a full page, whose (time, na
 is unparsable: such an entry has no cursor (`walk_asc_unparsable_lookahead`, `walk_witness_*` below; at the
 `bbs` level its cursor text "0@00000000" does not deserialise).  What holds is the statement under the
 explicit hypothesis that every look-ahead element is parsable; delete-marked and unparsable entries may sit
-anywhere else. -/
+anywhere else.  `walk` is the client loop on the abstract index (cursor = `(time, key)` of the look-ahead
+element, positioned with FindRecordStartIdx); `pagewalk_bbs` below carries the result to the
+`bbs.LoadGeneralArticles` loop over cursor texts. -/
 
 /-- ascending: the look-ahead elements are the 0-based positions `n, 2n, 3n, …`. -/
 def LookaheadOKAsc (idx : Index) (n : Nat) : Prop :=
@@ -162,6 +164,42 @@ theorem pagewalk_unparsable_lookahead (idx : Index) (n : Nat) (hlen : (1 : Int) 
     (hbad : tm idx n = none) : walk idx n false = .error .atoi :=
   walk_asc_unparsable_lookahead idx n hlen hbad
 
+/-! #### the `bbs` cursor text designates the look-ahead entry
+
+`bbs.LoadGeneralArticles` turns the look-ahead element into the text `"<time>@<article id>"` and the next call
+turns the text back into `(time, file name)` for `FindRecordStartIdx`.  On the names of the article-id domain
+of C13 (`render`: `M.`/`G.` + 10-digit time below 2^31 + `.A.` + 3 hex digits) this round trip yields exactly
+the entry's `(time, key)`, so the `bbs` walk is the abstract `walk` above; composed from C13's theorems
+`articleId_roundtrip` and `toArticleID_deleted`. -/
+
+theorem cursor_roundtrip_live (isM : Bool) (t p : Nat) (hd : C13.InDomain t p) :
+    ∃ fnm, deserializeIdx (serializeIdx (C13.render isM t p)) = .ok ((t : Int), fnm) ∧
+      (absEntry (C13.render isM t p)).time? = some (t : Int) ∧
+      (absEntry fnm).key = (absEntry (C13.render isM t p)).key :=
+  C06.cursor_roundtrip_live isM t p hd
+
+/-- a delete-marked look-ahead entry (repair 7c79b33) yields a cursor that positions on that entry. -/
+theorem cursor_roundtrip_deleted (isM : Bool) (t p : Nat) (hd : C13.InDomain t p) :
+    ∃ fnm, deserializeIdx (serializeIdx (C13.Props.markDeleted (C13.render isM t p))) = .ok ((t : Int), fnm) ∧
+      (absEntry (C13.Props.markDeleted (C13.render isM t p))).time? = some (t : Int) ∧
+      (absEntry fnm).key = (absEntry (C13.Props.markDeleted (C13.render isM t p))).key :=
+  C06.cursor_roundtrip_deleted isM t p hd
+
+/-- the `bbs.LoadGeneralArticles` client loop (empty cursor first, then `nextIdx` of each page, fresh cached
+total) over a board file whose names are in the article-id domain or unparsable (`NamesOK`) visits every entry
+exactly once, in order, and ends — same pages as the abstract walk; both directions. -/
+theorem pagewalk_bbs (names : List Name) (hok : NamesOK names) (S : SortedValid (names.map absEntry))
+    (U : UniqueKeys (names.map absEntry)) (n : Nat) (hn : 1 ≤ n) (isDesc : Bool)
+    (hla : if isDesc then LookaheadOKDesc (names.map absEntry) n else LookaheadOKAsc (names.map absEntry) n) :
+    ∃ bp, bbsWalk names n isDesc (names.length + 1) names.length [] = (bp, "end") ∧
+      (bp.map (·.items)).flatten =
+        (if isDesc then downFrom names.length names.length else upFrom 1 names.length) := by
+  obtain ⟨pages, hw, hfl⟩ := pagewalk_visits_all (names.map absEntry) S U n hn isDesc hla
+  unfold walk at hw
+  simp only [List.length_map] at hw hfl
+  obtain ⟨bp, h1, h2⟩ := bbsWalk_eq_walkFrom names hok n hn isDesc _ pages hw
+  exact ⟨bp, h1, by rw [h2]; exact hfl⟩
+
 /-! #### non-vacuity and witnesses (kernel evaluation of the model) -/
 
 def exIdx : Index :=
@@ -169,6 +207,22 @@ def exIdx : Index :=
 
 example : SortedValid exIdx ∧ UniqueKeys exIdx := by
   unfold SortedValid UniqueKeys exIdx; constructor <;> simp
+/-- the hypotheses of the bisection / post-search theorems are satisfiable: positions 1..4 bracket the
+parsable entries of `exIdx`, with an unparsable entry strictly inside and at both ends of the file. -/
+example : BInv exIdx 1 4 := by
+  refine ⟨by omega, by omega, by simp [exIdx], by decide, by decide⟩
+example : Frame exIdx 6 1 4 := by
+  refine ⟨by omega, by omega, by omega, by simp [exIdx], ?_, ?_⟩
+  · intro j hj
+    by_cases h0 : j < 0
+    · exact tm_none_of_neg h0
+    · have : j = 0 := by omega
+      subst this; rfl
+  · intro j h1 h2
+    have : j = 5 := by omega
+    subst this; rfl
+example : SortedT exIdx 6 :=
+  sortedT_of (by simp [exIdx]) (by unfold SortedValid exIdx; simp)
 example : LookaheadOKAsc exIdx 2 := by
   intro m hm hlt
   have : m = 1 ∨ m = 2 := by simp [exIdx] at hlt; omega
@@ -177,6 +231,14 @@ example : findRecordStartIdx exIdx 6 11 none true = .ok 3 := by rfl
 example : findRecordStartIdx exIdx 6 11 none false = .ok 5 := by rfl
 example : walk exIdx 2 false = .ok [[1, 2], [3, 4], [5, 6]] := by rfl
 example : walk exIdx 4 true = .ok [[6, 5, 4, 3], [2, 1]] := by rfl
+/-- `NamesOK` is satisfiable with all three sorts of names present. -/
+example : NamesOK [C13.render true 1234567890 1, C13.Props.markDeleted (C13.render false 1234567891 2), []] := by
+  intro nm h
+  simp only [List.mem_cons, List.not_mem_nil, or_false] at h
+  rcases h with h | h | h
+  · exact Or.inr ⟨true, 1234567890, 1, by unfold C13.InDomain; omega, Or.inl h⟩
+  · exact Or.inr ⟨false, 1234567891, 2, by unfold C13.InDomain; omega, Or.inr h⟩
+  · subst h; exact Or.inl (by decide)
 /-- the repaired defect db2703a: times [10, 20], cursor time 5, ascending: the first entry. -/
 example : findRecordStartIdx [⟨some 10, [1]⟩, ⟨some 20, [2]⟩] 2 5 none false = .ok 1 := by rfl
 /-- the recorded finding on a concrete index: the look-ahead of the first page is unparsable. -/
